@@ -104,7 +104,7 @@ def run(ctx, chk):
 
     # R4 interpreter
     G = ctx.gram("interpreter")
-    sadt = P.adts.get("util::interpreter_util::State")
+    sadt = P.find_adt("util::interpreter_util::State")
     jmp_i = [i for i, x in enumerate(sadt["variants"]) if x["name"] == "JMP"][0]
     for k, p in enumerate(G.productions("call")):
         where = f"{G.g['file']}:{p['line']}"
@@ -139,7 +139,7 @@ def run(ctx, chk):
             chk.violation("C08.R4", "ret", "target-modified", f"ret does not return JMP(popped value) unmodified: {tgt!r}", where)
 
     # R5 driver
-    drv = P.by_name.get(("bin", "driver::driver::CMDDriver::run"))
+    drv = P.find("bin", "driver::driver::CMDDriver::run")
     if drv is None:
         chk.undecided_("C08.R5", "CMDDriver::run", "driver not found")
     else:
